@@ -191,7 +191,8 @@ PROPS = {
               "Composed with the vector index (Props/Consensus.lean, Model/Indexed.lean): Consensus.indexed_eq_reference_partial - for a run of the reference ending in s with blocks out, one instance of the combined model (Orderer over its own vector index) processing the events of the net of s in ANY parents-first order "
               "accepts everything, ends with the reference's last decided frame and emits the reference's (frame, Atropos) list; its cheater lists are C03's sentence (indexed_blocks_cheaters_partial) = what the reference lists (C03_reference_cheaters). "
               "GONE there: Ctx's obs (observe_eq_FC, C05), ok/ValsOK (valsOK_of_build, C12), hb/FrameBound (frameBound_of_checks, C13); validity and accepted frames come from the run. "
-              "Remaining there: BFT, no seal (one epoch), nVals + events < 2^32, validators named by canonical index with non-zero 32-bit weights and the record built by the builder, every event passed eventcheck with its claimed frame and parent list.",
+              "Remaining there: BFT, no seal (one epoch), nVals + events < 2^32, validators named by canonical index with non-zero 32-bit weights and the record built by the builder, every event passed eventcheck with its claimed frame and parent list."
+              " Several epochs (C10_model_eq_reference_epochs_partial, Proofs/RefEpochs*.lean): driven epoch by epoch with the same events and agreeing seal tables, the model and the executable reference emit the same (epoch, frame, Atropos, sealed) sequence and make the same epoch transitions; after a seal the model is initial (epoch+1) nv and the reference is Inst.fresh (epoch+1) pairs (reference_process_seal: a sealing process call of the reference emits the blocks up to the sealing frame and returns the fresh instance of the next epoch).",
               props=["LachesisVerif.Props.C10", "LachesisVerif.Props.Consensus"], level="proof"),
     "C33": _p("Proof: for every history of addRoot/GetFrameRoots/epoch switches and EVERY cache eviction policy, GetFrameRoots f returns exactly "
               "the roots registered for f in the current epoch; a new epoch starts empty (key layout abstracted to records, injectivity is C32). "
